@@ -122,7 +122,9 @@ def checkFamily (name : String) (M : Nat) (sel : Raw → RawRes) (chain : List R
         | _ => none
 
 def oracle (now : Int) (kind : String) (raws : List Raw) (impl : String) : Option String :=
-  if impl = "err" ∨ impl = "issuer-invalid" then none
+  if (impl.splitOn " ALT=").length > 1 then
+    some s!"two public entry points for the same validation disagree: validate_*_at against {((impl.splitOn " ALT=").drop 1).headD ""}"
+  else if impl = "err" ∨ impl = "issuer-invalid" then none
   else if impl = "panic" then some "validation panicked"
   else match raws.getLast? with
   | none => none
